@@ -27,6 +27,11 @@ struct FpAcc {
   std::string where;
   unsigned long long digest = 1469598103934665603ULL;  // FNV-1a over the bit patterns
   long n = 0;
+  long zn = 0, zp = 0;  // predicate probes on splines that denote zero (signed zeros): asked / answered "zero"
+  void zero(bool answer) {
+    zn++;
+    if (answer) zp++;
+  }
   void feed(long double v) {
     char buf[64];
     const int len = std::snprintf(buf, sizeof buf, "%La;", v);
@@ -58,6 +63,8 @@ struct FpAcc {
     j["worst"] = static_cast<double>(worst);
     j["n"] = n;
     j["where"] = where;
+    j["zn"] = zn;
+    j["zp"] = zp;
     char buf[32];
     std::snprintf(buf, sizeof buf, "%016llx", digest);
     j["digest"] = buf;
